@@ -736,6 +736,14 @@ def _is_literal(node):
         return False
 
 
+def _overridden_below(P, cname, mname):
+    """some proper subclass of cname defines mname: `self.mname` inside cname's methods may then run the override, so it must not be read through"""
+    for c in P.classes:
+        if c != cname and cname in P.mro(c) and mname in P.classes[c].methods:
+            return True
+    return False
+
+
 def _class_constants(P):
     """class name -> {NAME: literal node} for class-level `NAME = <literal>` never written or mutated anywhere in the package"""
     cand = {}
@@ -889,6 +897,8 @@ def _specialise_in(P, ci, mro, fn, anchors):
         if not (isinstance(f, ast.Attribute) and isinstance(f.value, ast.Name) and f.value.id == "self" and f.attr not in anchors):
             return None
         h = None
+        if _overridden_below(P, ci.name, f.attr):
+            return None
         for c in mro:
             if c in P.classes and f.attr in P.classes[c].methods:
                 h = P.classes[c].methods[f.attr]
@@ -1117,6 +1127,7 @@ def _module_constants(P):
                 for n in x.names:
                     cnt[n] = cnt.get(n, 0) + 5
         consts[m.name] = {k: v for k, v in val.items() if cnt.get(k) == 1}
+    P.module_constants = consts
     for m in P.modules.values():
         table = dict(consts.get(m.name, {}))
         mods = {}
@@ -1206,7 +1217,7 @@ def _trivial_members(P, anchors):
         class T(ast.NodeTransformer):
             def _expr_for(self, recv, name, call, args=()):
                 cand = None
-                if isinstance(recv, ast.Name) and recv.id == "self" and ci_use is not None:
+                if isinstance(recv, ast.Name) and recv.id == "self" and ci_use is not None and not _overridden_below(P, ci_use.name, name):
                     for c in P.mro(ci_use.name):
                         for (ci, fn, e, isprop, ps) in members.get(name, []):
                             if ci.name == c:
@@ -1411,7 +1422,7 @@ def _inline_wrappers(P, anchors):
                 if not (isinstance(f, ast.Attribute) and f.attr in wrappers) or n.keywords or any(isinstance(a, ast.Starred) for a in n.args):
                     return n
                 cand = None
-                if isinstance(f.value, ast.Name) and f.value.id == "self" and ci_use is not None:
+                if isinstance(f.value, ast.Name) and f.value.id == "self" and ci_use is not None and not _overridden_below(P, ci_use.name, f.attr):
                     for c in P.mro(ci_use.name):
                         hit = [w for w in wrappers[f.attr] if w[0].name == c]
                         if hit:
